@@ -213,6 +213,9 @@ func scnGenesisRoundTrip(ctx *check.JobCtx) {
 	_, halt = imp.InitChainReq(abci.RequestInitChain{Time: chain.BlockTime(initialHeight - 1), ChainId: chain.ChainID, ConsensusParams: cp, AppStateBytes: exported, InitialHeight: initialHeight})
 	if halt != nil {
 		w.Violate("C18", "import-panicked:"+firstN(halt.Msg, 50), "InitChain with the exported genesis panicked: "+halt.Msg, firstN(halt.Stack, 3000))
+		if ctx.Job.Prop == "C02" {
+			w.Halt = halt // re-genesis from an exported state is part of C02's quantifier
+		}
 		w.Finish()
 		return
 	}
@@ -285,6 +288,9 @@ func scnGenesisRoundTrip(ctx *check.JobCtx) {
 		}
 		if h != nil {
 			w.Violate("C18", "continuation-halted-on-imported-chain:"+h.Call, fmt.Sprintf("the chain initialised from the export halted at height %d where the original did not: %s", h.Height, h.Msg), firstN(h.Stack, 3000))
+			if ctx.Job.Prop == "C02" {
+				w.Halt = h
+			}
 			w.Finish()
 			return
 		}
